@@ -102,7 +102,7 @@ RULES = [
     (r'^<NaiveDateTime as Timelike>::with_', ['C15:c15.ndt.witht'], 'C15_ndt_with_time_total', ''),
     (r'^<NaiveDateTime as fmt::', ['C09:tx.show'], 'none: correspondence + judge', ''),
     (r'^<NaiveDateTime as str::FromStr>::from_str$', ['C09:tx.parse'], 'none: partial -- C15_parse_items_total_partial (fixed item lists), resolution by C15_to_naive_date_total / C15_to_naive_time_total; composition: correspondence + judge', ''),
-    (r'^<NaiveDateTime as DurationRound>::', ['C17:rd.trunc', 'C17:rd.round', 'C17:rd.up'], 'none: C17 theorems are conditional on links to C03 (modulo_add_exact); correspondence + judge', 'C17: non-leap inputs'),
+    (r'^<NaiveDateTime as DurationRound>::', ['C17:rd.trunc', 'C17:rd.round', 'C17:rd.up'], 'C15_ndt_round_total_partial', 'non-leap date-times; C17 premise ndt_links discharged from C02 + C03'),
     (r'^NaiveWeek::checked_', ['C08:d8.wfirst', 'C08:d8.wlast', 'C08:d8.week'], 'C15_week_total', ''),
     # ---- NaiveTime
     (r'^NaiveTime::from_hms', ['C07:t.hms', 'C07:t.hms_milli', 'C07:t.hms_micro', 'C07:t.hms_nano'], 'C15_time_ctor_total', ''),
